@@ -64,6 +64,8 @@ def judge_curve_ders(ctx, S, u, order, got, key, what, desc):
         return False
     for k in range(order + 1):
         tol = 1e-9 * sc * (max(1.0, p / h) ** k) * (wr ** (k + 1) if S.rational else 1.0)
+        # ... and never below 1e-9 relative to the derivative itself (orders above 10 on 30 knot spans reach 1e37: thorough sweep)
+        tol = max(tol, 1e-9 * max(abs(float(e)) for e in exact[k]))
         err = max(abs(float(g) - float(e)) for g, e in zip(got[k], exact[k])) if len(got[k]) == len(exact[k]) else float('inf')
         _worst[0] = max(_worst[0], err / tol)
         if not err <= tol:
@@ -94,6 +96,7 @@ def judge_surface_ders(ctx, S, u, v, order, got, key, what, desc):
             tol = 1e-9 * sc * (max(1.0, p / hu) ** k) * (max(1.0, q / hv) ** l) * (wr ** (k + l + 1) if S.rational else 1.0)
             e = exact[(k, l)]
             g = got[k][l]
+            tol = max(tol, 1e-9 * max(abs(float(b)) for b in e))
             err = max(abs(float(a) - float(b)) for a, b in zip(g, e)) if len(g) == len(e) else float('inf')
             _worst[0] = max(_worst[0], err / tol)
             if not err <= tol:
